@@ -34,6 +34,13 @@ def setenc(codec):
         os.environ["DRX_ENCODING"] = codec
 
 
+# ---------------------------------------------------------------------------------------------- stage G
+
+def gen_tables():
+    import gen_idx_layouts
+    return gen_idx_layouts.gen_text_layouts()         # field layouts + shapes of parse_stxt_data / parse_fmap_data
+
+
 def r32(rng):
     return rng.choice([0, 1, -1, 2 ** 31 - 1, -2 ** 31, rng.randrange(1, 2000), rng.randrange(-2 ** 31, 2 ** 31)])
 
